@@ -1,14 +1,15 @@
 import NetVerif.Proofs.C14
 import NetVerif.Model.H2Norm
 /-!
-C14, part 4 — the request direction, as the code is: `clientFrames` (what the Transport writes for
-a submitted request) against the receive state machine.
+C14, part 4 — the request direction: `clientFrames` (what the Transport writes for a submitted
+request: `encodeAndWriteHeaders` + `writeRequestBody`) against the receive state machine.
 
-The literal statement "every request the Transport sends is delivered" is FALSE of the unchanged
-code: a request with `Body == nil` and a non-empty `Trailer` gets a HEADERS frame without END_STREAM
-and nothing else (`Req.neverEnds`), so the stream never completes (`full_false`; reproduced on the
-real Transport/Server by the harness under the signature `nil-body-with-trailers-never-ends`).
-Outside that region the frames decode to exactly `clientNorm r` (`holds_partial`).
+History: before the upstream repair "fix: http2: Transport never ended the stream of a request
+with no body but a non-empty Trailer" a request with `Body == nil` and announced trailers got a
+HEADERS frame without END_STREAM and nothing else, and this statement was false
+(`full_false` + `holds_partial`). The repaired code puts END_STREAM on HEADERS whenever there is no
+body (`endStream := !res.HasBody`); the statement now holds in full and the old witness is an
+`example` below and a regression input in `corpus/C14/`.
 -/
 namespace NetVerif.Proofs.C14
 open NetVerif NetVerif.Model.H2Frame NetVerif.Model.H2Msg NetVerif.Model.H2Norm
@@ -20,49 +21,50 @@ def RequestDeliveredStatement : Prop :=
     ∀ (p : Plan), 0 < p.maxHdr → 0 < p.maxData → ∀ (r : Req),
       ∃ d', decodeFrames C.dec d p.sid (clientFrames C s p r).1 = some (clientNorm r, d')
 
-/-- a POST without body announcing one trailer. -/
+theorem reqFields_ne_nil (r : Req) : reqFields r ≠ [] := by simp [reqFields]
+
+/-- **Every request is delivered**: for every lawful codec, plan and request, the frames the
+Transport writes decode to exactly `clientNorm r` (header fields in `enumerateHeaders` order, body,
+trailers) and leave the codec states in sync. -/
+theorem request_delivered (C : Codec) (sync : C.S → C.D → Prop) (hC : Lawful C sync) (s : C.S) (d : C.D)
+    (hs : sync s d) (p : Plan) (hh : 0 < p.maxHdr) (hd : 0 < p.maxData) (r : Req) :
+    ∃ d', decodeFrames C.dec d p.sid (clientFrames C s p r).1 = some (clientNorm r, d') ∧
+      sync (clientFrames C s p r).2 d' := by
+  unfold clientFrames
+  exact decode_encode C sync hC s d hs { p with earlyEnd := r.earlyEnd } hh hd (clientNorm r)
+    (reqFields_ne_nil r)
+
+theorem holds : RequestDeliveredStatement := by
+  intro C sync hC s d hs p hh hd r
+  obtain ⟨d', h, _⟩ := request_delivered C sync hC s d hs p hh hd r
+  exact ⟨d', h⟩
+
+theorem chunks_nil (max : Nat) (cuts : List Nat) : chunks max cuts [] = [] := by
+  cases cuts <;> simp [chunks, splitBlock, splitLoop]
+
+/-- a request without a body is a single header block carrying END_STREAM on its HEADERS frame,
+whether or not trailers are announced. -/
+theorem bodyless_ends_on_headers (C : Codec) (s : C.S) (p : Plan) (r : Req) (h : r.hasBody = false) :
+    (clientFrames C s p r).1 = writeHeaderBlock p.sid true p.maxHdr (C.enc s (reqFields r)).1 := by
+  simp [clientFrames, encodeFrames, clientNorm, Req.earlyEnd, h, chunks_nil]
+
+/-- the former witness of `full_false`: a POST without body announcing one trailer. -/
 def witnessReq : Req :=
   { method := str "POST", scheme := str "https", host := [], uhost := str "example.com", path := str "/",
     contentLength := 0, nilBody := true, body := [], header := [], trailer := [(str "X-T", [str "v"])],
     gzip := false }
 
-theorem witness_neverEnds : witnessReq.neverEnds = true := by decide +kernel
-
-/-- the frames written for the witness are a single HEADERS frame without END_STREAM: the
-receiver is left waiting in phase `body`. -/
-theorem witness_not_delivered :
-    decodeFrames simpleCodec.dec () 1 (clientFrames simpleCodec () { sid := 1, maxHdr := 16384, maxData := 16384 } witnessReq).1
-      = none := by decide +kernel
-
-theorem full_false : ¬ RequestDeliveredStatement := by
-  intro h
-  obtain ⟨d', hd⟩ := h simpleCodec (fun _ _ => True) simpleCodec_lawful () () trivial
+/-- it now satisfies the statement: its frames are accepted as `clientNorm witnessReq` … -/
+example : ∃ d', decodeFrames simpleCodec.dec () 1
+      (clientFrames simpleCodec () { sid := 1, maxHdr := 16384, maxData := 16384 } witnessReq).1
+    = some (clientNorm witnessReq, d') :=
+  holds simpleCodec (fun _ _ => True) simpleCodec_lawful () () trivial
     { sid := 1, maxHdr := 16384, maxData := 16384 } (by decide) (by decide) witnessReq
-  rw [witness_not_delivered] at hd
-  cases hd
 
-theorem reqFields_ne_nil (r : Req) : reqFields r ≠ [] := by simp [reqFields]
-
-/-- **Outside the excluded region the request is delivered**: for every lawful codec, plan and
-request that is not `neverEnds`, the frames the Transport writes decode to exactly `clientNorm r`
-(header fields in `enumerateHeaders` order, body, trailers) and leave the codec states in sync. -/
-theorem holds_partial (C : Codec) (sync : C.S → C.D → Prop) (hC : Lawful C sync) (s : C.S) (d : C.D)
-    (hs : sync s d) (p : Plan) (hh : 0 < p.maxHdr) (hd : 0 < p.maxData) (r : Req)
-    (hr : r.neverEnds = false) :
-    ∃ d', decodeFrames C.dec d p.sid (clientFrames C s p r).1 = some (clientNorm r, d') ∧
-      sync (clientFrames C s p r).2 d' := by
-  unfold clientFrames
-  simp only [hr, Bool.false_eq_true, ↓reduceIte]
-  exact decode_encode C sync hC s d hs { p with earlyEnd := r.earlyEnd } hh hd (clientNorm r)
-    (reqFields_ne_nil r)
-
-/-- the excluded region is exactly "no body but announced trailers". -/
-theorem neverEnds_iff (r : Req) : r.neverEnds = true ↔ (r.actualCL = 0 ∧ r.trailer ≠ []) := by
-  unfold Req.neverEnds
-  cases h : r.trailer <;> simp
-
-/-- non-vacuity of `holds_partial`: an ordinary POST with body and trailers is in its domain. -/
-example : ({ witnessReq with nilBody := false, body := [1, 2, 3], contentLength := 3 } : Req).neverEnds = false := by
-  decide +kernel
+/-- … which still announces the trailer in the header block but carries no trailers, and whose
+single HEADERS frame has END_STREAM. -/
+example : (clientNorm witnessReq).trailers = [] ∧
+    (⟨str "trailer", str "X-T"⟩ : Field) ∈ (clientNorm witnessReq).headers ∧
+    witnessReq.earlyEnd = true := by decide +kernel
 
 end NetVerif.Proofs.C14
